@@ -18,6 +18,7 @@ import (
 	"os/exec"
 	"path/filepath"
 	"runtime"
+	"runtime/pprof"
 	"sort"
 	"strconv"
 	"strings"
@@ -128,6 +129,12 @@ func workerMain(args []string) {
 		fmt.Fprintln(os.Stderr, "unknown property", *prop)
 		os.Exit(2)
 	}
+	if pf := os.Getenv("VERIF_CPUPROFILE"); pf != "" {
+		if f, err := os.Create(pf); err == nil {
+			_ = pprof.StartCPUProfile(f)
+			defer pprof.StopCPUProfile()
+		}
+	}
 	res := &WorkerOut{Stats: core.NewStats(), PerConfig: map[string]int64{}}
 	fps := map[uint64]struct{}{}
 	firstBySig := map[string]int{}
@@ -147,7 +154,7 @@ func workerMain(args []string) {
 			}
 			still++
 			if still >= *hangSec {
-				api, _ := core.CurrentAPI.Load().(string)
+				api := core.CurrentAPIName()
 				b, _ := json.Marshal(hangRec{Run: curRun, RunSeed: curSeed, Config: curCfg, API: api})
 				_ = os.WriteFile(*out+".hang", b, 0o644)
 				os.Exit(3)
